@@ -1,5 +1,5 @@
 """Vector engines (E5): Canon (C13), Depfile (C15), Render (C20), NinjaManifest (C10 C11 C14)."""
-import json, random
+import json, os, random
 import driver as D
 
 def _viol(prop, tag, fam, bad, extra=None):
@@ -126,7 +126,7 @@ def _detok(text):
 
 def _mutations(seed, count):
     import sys
-    sys.path.insert(0, "/verif/lib")
+    sys.path.insert(0, os.path.dirname(os.path.realpath(__file__)))
     import gen_sched, n2gen
     rnd = random.Random(seed * 9176 + 11)
     out = []
